@@ -15,7 +15,7 @@ PROPS["C18"] = dict(
           "malformed mutants, oracle = direct enumeration of the grammar with a 10^4 step budget; non-trivial = |stride| != 1 or not well-formed. "
           "index: generated index multisets <-> strings, oracle = std::set; non-trivial = has a consecutive run and duplicates. "
           "beadselect: generated topologies + type / name: patterns vs DP matcher; non-trivial = wildcard pattern selecting a proper non-empty subset. "
-          "fz_c18: libFuzzer bytes -> (pattern,string) and range expression with the same oracles inside the target."),
+          "fz_c18: libFuzzer bytes -> (pattern,string) and range expression with the same oracles inside the target. range_add: blocks built through RangeParser::Add(begin,end,stride) (end on or off the stride grid, both directions; exhaustive for |b|,|e|,|s| <= 5, generated beyond), alone and mixed with parsed blocks, sequence + termination + print/re-parse. beadselect: every selection is also made through GenerateInSphericalSubvolume (open box, beads on a line, radius never a tie)."),
     assumptions=COMMON_ASSUME + ["range expressions with an empty begin/end field, empty blocks or an empty string are treated as 'either accepted or rejected' (only termination is required)"],
     exhaustive_in="both",
     exhaustive_note="the small-scope enumerations are complete; the generated part is a sample",
